@@ -109,6 +109,15 @@ def run(tier, v):
     r = vlib.tlc("MC_C01", pid=PID, workers=8, tags=("REPLAY", "H2", "TLS"), tag_sink=lambda tag, o: sink[tag](o), env={"VERIF_TIER": tier}, timeout=3000, heap="10g", coverage=False)
     if not (optframes and h2shapes and tlsshapes):
         raise vlib.ToolError("MC_C01 produced no inputs for one family")
+    # well-formed option sequences with boundary values (MSS 0, scale 14/15/255, repeated options, every unknown kind), so that
+    # the arithmetic behind extraction AND signature matching is exercised on them
+    sigs = os.path.join(wd, "sigs.ndjson")
+    sreq = os.path.join(wd, "sigs.req")
+    vlib.write_ndjson(sreq, [{"op": "db_sigs", "id": 0}])
+    vlib.run_hv("db", sreq, sigs)
+    for fam in ("opt", "kind"):
+        vlib.tlc("MC_C03", pid=PID, workers=8, tag_sink=lambda tag, o: optframes.append(bytes(o["frame"])) if tag == "REPLAY" else None, timeout=3000, heap="10g", coverage=False,
+                 env={"SIGS": sigs, "VERIF_FAM": fam, "VERIF_STRIDE": 1, "VERIF_OFFSET": 0, "VERIF_MAXOPTS": 3 if tier != "thorough" else 4})
     h2shapes = sorted(set(h2shapes))
     tlsshapes = sorted(set(tlsshapes))
     # ---- (b) seeds from the specifications' Wire operators and from the repository's captures
